@@ -547,3 +547,80 @@ def build_jumps(tier):
                        descr='JUMP/JUMPI continue only at operand+1 when the jump-destination analysis accepts the operand (< 2^32); otherwise EVM_CONTRACT_BAD_JUMPDEST; JUMPI with a zero condition falls through',
                        bounds='256-bit operands (four limbs); CUT: Bytecode::valid_jump_destination (arbitrary verdict; the analysis is decided by Kani)', max_paths=20000)
             for c in (False, True)]
+
+
+# ---- precompile dispatch: a failing precompile moves no value ----------------------------------------------------------------
+# CUTS (declared): Precompiles::lookup_precompile (arbitrary: none, or a precompile whose body is an arbitrary success / failure -
+# the precompile bodies are pure functions of their input apart from call_actor, which is reachable by DELEGATECALL only and
+# then carries no value); EthAddress -> Address conversion (Kani c20_ethaddress_*).
+
+def run_precompile(E):
+    from mirsym.models_evm import mk_word, word_int
+    rt, rtref = C19.setup(E, readonly=False)
+    sysv = C19.okv(E, C19.call(E, 'load', [rtref]), 'load failed')
+    cell = Cell(sysv, 'system')
+    env = E.ctx.env
+    env.update(dict(sys0=sysv, cell=cell))
+    paddr = E.materialize(ADDR, 'precompile_addr')
+    E.cuts['<Address as From>::from'] = lambda E2, c: paddr
+    env['paddr'] = paddr
+    E.cuts['<TokenAmount as From>::from'] = lambda E2, c: BigV(word_int(E2, c.args[0]))   # 256-bit word -> token amount (value-preserving; Kani c17_* decide the limb arithmetic)
+
+    def stub(E2, c):
+        env2 = E2.ctx.env
+        env2['ran_after_sends'] = len(env2['rt'].sends)
+        if E2.ctx.branch(z3.Bool('precompile_succeeds')):
+            env2['pre_ok'] = True
+            return ok(VecV([], 'Vec<u8>'), c.dest_ty)
+        env2['pre_ok'] = False
+        return err(LazyV('precompile_error', 'interpreter::precompiles::PrecompileError'), c.dest_ty)
+    E.cuts['verif_precompile_body'] = stub
+
+    def lookup(E2, c):
+        if E2.ctx.branch(z3.Bool('precompile_defined')):
+            return some(FnItemV('verif_precompile_body'), c.dest_ty)
+        return none(c.dest_ty)
+    E.cuts['Precompiles::lookup_precompile'] = lookup
+    value = mk_word(E, 'value')
+    env['value'] = word_int(E, value)
+    PC = Fields('actors/evm/src/interpreter/precompiles/mod.rs', 'PrecompileContext')
+    pctx = StructV('interpreter::precompiles::PrecompileContext', {PC['call_type']: LazyV('call_type', 'interpreter::CallKind'), PC['gas']: mk_word(E, 'gas'), PC['value']: value})
+    eth = Cell(LazyV('pre_eth', 'fil_actors_evm_shared::address::EthAddress'), 'eth')
+    inp = Cell(VecV([], 'Vec<u8>'), 'input')
+    fn = find_fn(E, EVM, 'call_precompile')
+    return E.run_function(fn, [RefV(cell, (), True), RefV(eth, ()), RefV(inp, ()), pctx]), rt
+
+
+def props_precompile(E, res):
+    env = res.ctx.env
+    rt = env['rt']
+    if res.kind == 'early':
+        return []
+    if res.kind != 'return':
+        return [('no panic (%s)' % str(res.info)[:60], False)]
+    P = []
+    pre_ok = env.get('pre_ok')
+    transfers = [s for s in rt.sends]
+    if pre_ok is False:
+        P.append(('a precompile that fails is reported as failed', is_err(res.value)))
+        P.append(('a precompile that fails moves no value: no transfer was made', len(transfers) == 0))
+    if 'ran_after_sends' in env:
+        P.append(('the value moves only after the precompile has succeeded', env['ran_after_sends'] == 0))
+    if is_ok(res.value):
+        v = env['value']
+        if transfers:
+            s = transfers[0]
+            P.append(('a successful precompile call moves exactly the call value, once, to the precompile address by a plain transfer',
+                      b_and(len(transfers) == 1, s.value == v, zv(s.method) == 0, addr_eq(s.to, env['paddr']), v > 0, s.ok)))
+        else:
+            P.append(('no transfer only for a zero call value', v == 0))
+    else:
+        P.append(('a failed call leaves at most the one refused transfer behind', len(transfers) <= 1 and all((not s.ok) for s in transfers)))
+    return P
+
+
+def build_precompile(tier):
+    return [Obligation('evm.Precompiles::call_precompile', run_precompile, props_precompile,
+                       descr='precompile dispatch with value: a failing precompile leaves no transfer behind (the value moves only after success, exactly once, to the precompile address)',
+                       bounds='one call; arbitrary 256-bit value; CUTS: precompile table lookup and body (arbitrary success / failure), address conversion; the transfer free to fail',
+                       max_paths=5000)]
